@@ -16,14 +16,14 @@ import (
 
 func init() {
 	Registry["C12"] = Spec{
-		Fn:     c12,
-		Level:  "exploration",
-		Builds: []string{"race"},
-		Shards: 8,
-		Rule: "the scenario suites of C03/C04/C09/C10/C11 are executed in a -race build: every query scenario (select, telemetry, insert, streamed insert with progress/profile-event packets arriving while blocks are sent, compressed variants, external data) with OpenTelemetryInstrumentation on and off, fault-free and with cancel / foreign Close / exception / callback failure injected at every gate of the pilot trace, repeated (quick x3, thorough x40) under GOMAXPROCS in {2, 4, 16}; shared pools with 1..12 goroutines and a 1-2 ms health checker. The harness obeys the API contract (no concurrent Do/Ping on one client, input columns touched only inside OnInput). Oracle: the Go race detector; its log files are parsed in the parent, reports are deduplicated by stack pair, and a report counts as a violation iff at least one stack has a frame in github.com/ClickHouse/ch-go (a race wholly inside the harness fails the run as a broken monitor). Non-trivial = sender and receiver both executed hook points in the run; distinct = interleaving signatures (hash of the per-execution hook order)",
-		Assumptions: []string{"a clean run means no race was reported on the interleavings observed, nothing more", "Go race detector (ThreadSanitizer runtime) as shipped with go1.23"},
-		MinDistinct: 20,
-		Post:        c12Post,
+		Fn:           c12,
+		Level:        "exploration",
+		Builds:       []string{"race"},
+		Shards:       8,
+		Rule:         "the scenario suites of C03/C04/C09/C10/C11 are executed in a -race build: every query scenario (select, telemetry, insert, streamed insert with progress/profile-event packets arriving while blocks are sent, compressed variants, external data) with OpenTelemetryInstrumentation on and off, fault-free and with cancel / foreign Close / exception / callback failure injected at every gate of the pilot trace, repeated (quick x3, thorough x40) under GOMAXPROCS in {2, 4, 16}; shared pools with 1..12 goroutines and a 1-2 ms health checker. The harness obeys the API contract (no concurrent Do/Ping on one client, input columns touched only inside OnInput). Oracle: the Go race detector; its log files are parsed in the parent, reports are deduplicated by stack pair, and a report counts as a violation iff at least one stack has a frame in github.com/ClickHouse/ch-go (a race wholly inside the harness fails the run as a broken monitor). Non-trivial = sender and receiver both executed hook points in the run; distinct = interleaving signatures (hash of the per-execution hook order)",
+		Assumptions:  []string{"a clean run means no race was reported on the interleavings observed, nothing more", "Go race detector (ThreadSanitizer runtime) as shipped with go1.23"},
+		MinDistinct:  20,
+		Post:         c12Post,
 		TimeoutQuick: 20 * time.Minute,
 	}
 }
@@ -54,6 +54,11 @@ func c12(r *core.Run) {
 			plans = append(plans, nil)
 			for gi, g := range gates {
 				plans = append(plans, &fault{Kind: "cancel", Gate: g}, &fault{Kind: "foreign-close", Gate: g})
+				if strings.HasPrefix(g, "hook:cancel:") || strings.HasPrefix(g, "srv:before:") {
+					// a Close from a goroutine that is causally independent of the query and lands
+					// while Do is finishing or just after it returned
+					plans = append(plans, &fault{Kind: "foreign-close-late", Gate: g, K: int64(gi)})
+				}
 				if gi%3 == 0 {
 					plans = append(plans, &fault{Kind: "exception", Gate: g})
 				}
@@ -68,7 +73,9 @@ func c12(r *core.Run) {
 						continue
 					}
 					r.CaseLog(fmt.Sprintf("%d %s %s #%d", ci, sc.Name, f, k))
-					mk := func() (context.Context, context.CancelFunc) { return context.WithTimeout(context.Background(), 5*time.Second) }
+					mk := func() (context.Context, context.CancelFunc) {
+						return context.WithTimeout(context.Background(), 5*time.Second)
+					}
 					o := runScenario(sc, seed+int64(k), f, 50*time.Millisecond, mk)
 					r.Eval()
 					if o.Sim != nil && o.Sim.Client != nil {
